@@ -417,6 +417,8 @@ class SStr(Proxy):
         if c is not None and getattr(c, "symbolic", False):
             c.assume_z3(z3.Length(r) == z3.Length(self.t))
             c.assume_z3(f(r) == r)
+            if self.narrow:       # lower-casing latin-1 text stays within latin-1
+                c.assume_z3(z3.InRe(r, z3.Star(z3.Range(chr(0), chr(255)))))
         return self._mk(r)
 
     def upper(self):
@@ -443,8 +445,18 @@ class SStr(Proxy):
     def decode(self, enc="utf-8", errors="strict"):
         if not self.is_bytes:
             raise AttributeError("decode")
-        if enc.lower().replace("-", "") in ("latin1", "iso88591"):
-            return SStr(self.t, False)
+        e = enc.lower().replace("-", "").replace("_", "")
+        if e in ("latin1", "iso88591"):
+            return SStr(self.t, False, True)
+        if e in ("utf8", "ascii"):
+            # pure-ASCII bytes decode to the same text; anything else is outside the model (utf-8 validity / value)
+            c = cx()
+            c.use_model("bytes.decode(utf-8/ascii): identity on ASCII, UnicodeDecodeError-or-unmodelled otherwise (A-STDLIB)")
+            if c.branch(z3.InRe(self.t, z3.Star(z3.Range(chr(0), chr(127))))):
+                return SStr(self.t, False, True)
+            if e == "ascii" or c.choose("utf-8 decoding of non-ASCII bytes", ["invalid", "valid"]) == "invalid":
+                raise UnicodeDecodeError(e, b"", 0, 1, "invalid start byte")
+            return c.str("utf8_decoded")       # some text (value outside the model: sound over-approximation)
         raise core.Unsupported("SStr.decode(%s)" % enc)
 
     def __mod__(self, o):
